@@ -39,7 +39,7 @@ func backoffCheck(attempt int) {
 
 var backoffQuick = []int{1, 2, 3, 5, 9, 17, 33, 35, 41, 64}
 
-// verif:harness props=C06 tier=quick weight=300 shards=10 tshards=10 qtimeout=20000
+// verif:harness props=C06 tier=quick weight=300 qtimeout=20000
 // verif:bounds attempts {1,2,3,5,9,17,33,35,41,64} as separate paths; every 0 < base <= cap < 2^53 ns (104 days), every jitter in [0,1], every rand in [0,1); float64 under the standard rounding model (|eps| <= 2^-53 per operation), integers as mathematical ints; absolute slack m*2^-40+1ns
 func VerifC06Backoff() {
 	vrt.IntMode()
@@ -47,7 +47,7 @@ func VerifC06Backoff() {
 	backoffCheck(attempt)
 }
 
-// verif:harness props=C06 tier=thorough weight=2000 shards=14 tshards=14 qtimeout=60000
+// verif:harness props=C06 tier=thorough weight=2000 qtimeout=60000
 // verif:bounds attempts 1..64, one path each; same value space as VerifC06Backoff
 func VerifC06BackoffAll() {
 	vrt.IntMode()
